@@ -103,3 +103,15 @@ Proof. exact stamp_columns. Qed.
 Theorem c08_unmap : forall a b c d, unmap [0;0;0;0;0;0;0;0;0;0;255;255;a;b;c;d] = [a;b;c;d].
 Proof. exact unmap_mapped. Qed.
 Print Assumptions c08_enrich.
+
+(* THE NETFLOW V5 COLUMN OF THE DOCUMENTATION TABLE IS IMPLEMENTED.  Spec/DocTable.v doc_v5 (regenerated from
+   docs/protocols.md): the v5 cell of every row as written, with the field of the Go record struct it names
+   (srcaddr, dOctets, prot, tcp_flags, src_mask ...; v5_record_layout is regenerated from
+   decoders/netflowlegacy/packet.go).  For EVERY row: a cell that names a record field -> the column carries
+   exactly that field of a probe record whose 20 fields are all different; NETFLOW_V5 / IPv4 / Included /
+   "System uptime and first|last" -> the type, ethertype, presence and clock arithmetic they describe
+   (Spec/DocCheck2.v; a cell in words the check does not know fails).  Finite table, evaluated by the kernel. *)
+From GF Require Import Spec.DocCheck2.
+Theorem c08_doc_v5_column_implemented : v5_doc_failures = [].
+Proof. vm_compute. reflexivity. Qed.
+Print Assumptions c08_doc_v5_column_implemented.
